@@ -269,10 +269,89 @@ def truthiness_timing_family():
     return out
 
 
+def nested_conditional_family(quick):
+    """An `if` / `cond` inside each slot of another `if`, every test and branch either a pure effect call
+    or a form that needs statements, under every truth assignment of the tests; each also as the value of
+    an assignment and as an operand of +.  (The compiler shares result variables between nested ifs.)"""
+    import itertools
+    V = lambda i: T("var", i)
+    out = []
+
+    def build(shape):
+        """shape: nested tuples ("if", test, then, else) with leaves "P" / "S" -> (tree, test sites, other sites)"""
+        counter = [0]
+        tests, others = [], []
+
+        def leaf(kind, is_test):
+            counter[0] += 1
+            k = counter[0]
+            (tests if is_test else others).append(k)
+            if kind == "P":
+                return T("eff", k, [])
+            counter[0] += 1
+            k2 = counter[0]
+            others.append(k)
+            if is_test:
+                tests.remove(k)
+                tests.append(k2)
+            else:
+                others.append(k2)
+            return T("do", 0, [T("setv", 0, [V(1), T("eff", k, [])]), T("eff", k2, [])])
+
+        def go(sh, is_test=False):
+            if isinstance(sh, str):
+                return leaf(sh, is_test)
+            if sh[0] == "if":
+                return T("if", 0, [go(sh[1], True), go(sh[2]), go(sh[3])])
+            if sh[0] == "cond":
+                ch = []
+                for a, b in zip(sh[1::2], sh[2::2]):
+                    ch += [go(a, True), go(b)]
+                return T("cond", 0, ch)
+            if sh[0] == "+":
+                return T("args", "+", [go(x) for x in sh[1:]])
+            raise MachineryError(str(sh))
+        return go(shape), list(tests), list(others)
+    PS = ("P", "S")
+    shapes = []
+    inner = [("if", a, b, c) for a in PS for b in PS for c in PS]
+    for a in PS:
+        for b in PS:
+            for i in inner:
+                shapes.append(("if", a, b, i))          # inner if in the else slot
+                shapes.append(("if", a, i, b))          # ... in the then slot
+    for i in inner[:4]:
+        for j in inner[4:]:
+            shapes.append(("if", "P", "S", ("+", i, j)))   # sibling ifs below an else
+            shapes.append(("if", "P", ("+", i, j), "P"))
+    for a in PS:
+        for b in PS:
+            for c in PS:
+                for d in PS:
+                    shapes.append(("cond", a, b, c, d))
+                    shapes.append(("if", "P", "S", ("cond", a, b, c, d)))
+    if quick:
+        shapes = shapes[::2] + shapes[1::7]
+    NONE = ["none", 0, []]
+    for sh in shapes:
+        tree, tests, others = build(sh)
+        tests = sorted(set(tests))
+        for bits in itertools.product((0, 1), repeat=len(tests)):
+            sc = {k: [["int", 10 + k, []]] * 2 for k in others}
+            for k, b in zip(tests, bits):
+                sc[k] = [["bool", b, []]] * 2
+            out.append((T("do", 0, [clone(tree)]), sc))
+            out.append((T("do", 0, [T("setv", 0, [V(2), clone(tree)]), V(2)]), sc))
+    return out
+
+
 def main_c01(run):
     rng = random.Random(run.seed)
     q = run.quick
     nv = 4
+    nfam = nested_conditional_family(q)
+    ncases = [observe(t, sc, {}, {}, nv, tag="nested-if") for t, sc in nfam]
+    decide(run, ncases, nv, "c01-nested-if", explore_small=0)
     fam = truthiness_timing_family()
     fcases = [observe(t, sc, {}, {}, nv, tag="box") for t, sc in fam] + \
              [observe(wrap_in_fn(t, 4), sc, {}, {}, nv, tag="box in fn") for t, sc in fam]
@@ -509,10 +588,50 @@ def c06_rebinding_family(rng, quick):
     return out
 
 
+def hoist_family(run):
+    """defn inside let inside functions: HyHoist.tla says what every level reads afterwards"""
+    import types
+    import hy
+    r = tlc.run("HyHoist", tlc.cfg(constants={"MaxDepth": 4 if run.quick else 5},
+                                   invariants=["HoistedToPythonScope", "OuterLetsUntouched", "InsideSeesFunction", "Export"]),
+                run.work, workers=8, label="hoist")
+    if r.violated:
+        raise MachineryError(f"HyHoist: {r.violated} violated on the specification")
+    run.add_tlc(r, "HyHoist: chains of functions and lets (binding g or not) around (defn g [] 7); what each level reads")
+    for rec in r.ex("PROG"):
+        ks, bs, reads = rec["ks"], rec["bs"], rec["reads"]
+        D = len(ks)
+
+        def level(i):
+            inner = level(i + 1) if i < D else ["(defn g [] 7)"]
+            read = [f'(setv (get R {i}) (if (callable g) (g) g))'] if reads[i] != 0 else []
+            if i == 0:
+                return inner + read
+            body = " ".join(inner + read)
+            if ks[i - 1] == "fn":
+                return [f"(defn hyv-h{i} [] {body})", f"(hyv-h{i})"]
+            return [f"(let [{'g ' + str(10 + i) if bs[i - 1] else 'hyv-d' + str(i) + ' 0'}] {body})"]
+        text = "(setv R {})\n" + "\n".join(level(0)) + "\n"
+        run.case(text)
+        mod = types.ModuleType("hyv_hoist")
+        want = {i: v for i, v in enumerate(reads) if v != 0}
+        try:
+            hy.eval(hy.read_many(text), mod.__dict__, module=mod)
+            got = dict(mod.R)
+        except Exception as x:
+            got = f"{type(x).__name__}: {x}"
+        if got != want:
+            run.violation("hoist:" + text, f"defn inside let: levels read {got}, the documentation gives {want}; program:\n{text}",
+                          {"text": text, "spec": rec})
+        else:
+            run.cov["traces_validated_against_impl"] += 1
+
+
 def main_c06(run):
     rng = random.Random(run.seed)
     q = run.quick
     nv = 4
+    hoist_family(run)
     fam = c06_rebinding_family(rng, q)
     run.log(f"rebinding family: {len(fam)} programs")
     fcases = build_cases(run, fam + [wrap_in_fn(t, 4) for t in fam[:: (4 if q else 1)]], rng, nv, fault_limit=0)
